@@ -1033,6 +1033,36 @@ set_option maxRecDepth 100000 in
 example : (exchange ⟨false, false⟩ (.part 0) [sampleOk] false).released = false := by decide
 
 
+/-- **C17_interim_100_transparent** — `Expect: 100-continue`: when the first head is a plain
+`100 Continue` (no payload, connection left keep-alive), the outcome of the whole exchange —
+body, error, release — is exactly that of the final response read on its own from what follows
+the interim head. In particular whether a close before the framed end is an error is decided by
+the FINAL head's status (`bodilessStatus` of the current head), never by the interim 1xx: all
+theorems of Parts 2-3 apply to the final response unchanged. -/
+theorem C17_interim_100_transparent (o : ReqOpts) (mode : Mode) (segs : List Bytes) (closed : Bool)
+    (h : Head) (b buf : Bytes) (rest : List Bytes) (f : Framing)
+    (hh : headPhase [] segs = (.ok h b, buf, rest)) (h100 : h.status = 100)
+    (hf : responseFraming h = some f) (hp : f.ptype = .none) (hka : codecKeepAlive o h f = true) :
+    exchangeX o true mode segs closed = exchange o mode (b :: rest) closed := by
+  unfold exchangeX
+  simp only [if_true, hh, h100, hf]
+  cases f with
+  | mk pt c =>
+    simp only [] at hp
+    subst hp
+    simp only [hka, if_true]
+
+/-- `HTTP/1.1 100 Continue CRLF CRLF` followed by `sampleShort` (announces 9, sends 2), then close -/
+def sampleInterim : Bytes :=
+  [72, 84, 84, 80, 47, 49, 46, 49, 32, 49, 48, 48, 32, 67, 111, 110, 116, 105, 110, 117, 101, 13, 10, 13, 10]
+
+set_option maxRecDepth 100000 in
+/-- **witness_interim_then_truncated** — the seeded-change input (C17-r3-1): after an interim
+`100 Continue` a Content-Length body cut by the close is still `Incomplete`, not pooled -/
+theorem witness_interim_then_truncated :
+    (exchangeX ⟨false, false⟩ true .full [sampleInterim, sampleShort] true).outcome = .bodyErr 200 .incomplete ∧
+    (exchangeX ⟨false, false⟩ true .full [sampleInterim ++ sampleShort] true).released = false := by decide
+
 /-! ## Part 4 — every run of the correspondence driver is a pool history
 
 `Model/ClientWorld.lean` is the environment the harness builds around the real client (request
@@ -1050,8 +1080,8 @@ theorem world_apply_hist (cfg : Cfg) (w : World) (es : List Ev)
 def Hist (cfg : Cfg) (w : ClientWorld.World) : Prop := w.pool = runEvs cfg w.evs
 
 open ActixModel.ClientWorld in
-theorem hist_stepReq (cfg : Cfg) (w : World) (a : Nat) (o : ReqOpts) (m : Mode) (s : Script)
-    (h : Hist cfg w) : Hist cfg (stepReq cfg w a o m s) := by
+theorem hist_stepReq (cfg : Cfg) (w : World) (a : Nat) (o : ReqOpts) (e : Bool) (m : Mode) (s : Script)
+    (h : Hist cfg w) : Hist cfg (stepReq cfg w a o e m s) := by
   unfold stepReq Hist
   simp only [World.see]
   apply world_apply_hist
@@ -1100,7 +1130,7 @@ theorem C17_driver_runs_are_histories (cfg : Cfg) (ops : List ClientWorld.Op) :
       apply ih
       cases op with
       | bad => exact h
-      | req a o m s => exact hist_stepReq cfg w a o m s h
+      | req a o e m s => exact hist_stepReq cfg w a o e m s h
       | par auths => exact hist_stepPar cfg w auths h
   exact this {} rfl
 
